@@ -10,6 +10,7 @@
 //! counterexample (model of all declared variables + decision trail), which
 //! `replay_concrete` re-executes without any solver by evaluating terms under
 //! the model.
+pub mod assoc;
 pub mod det;
 pub mod env;
 pub mod solver;
